@@ -344,8 +344,13 @@ def gen_calls(rng, kind, beta, ncalls):
     return calls
 
 
-def do_call(model, op, teams_vals, kw, namer):
+def do_call(model, op, teams_vals, kw, namer, share_ids=False):
     teams = [[model.rating(mu=m, sigma=s, name=namer()) for (m, s) in t] for t in teams_vals]
+    if share_ids:
+        # several entrants carry the same id (guest accounts, a snapshot of a player entered next to the live one)
+        for t in teams:
+            for p in t:
+                p.id = "guest"
     if op == "rate":
         out = model.rate(teams, **{k: (list(v) if isinstance(v, list) else v) for k, v in kw.items()})
         return [[(p.mu, p.sigma) for p in t] for t in out]
@@ -364,7 +369,7 @@ def c14_history(res, rng, kind):
         inp = dict(type="c14", kind=kind, cfg=cfg, calls=core.jsonable(calls[:k + 1]))
         before = p_state(shared)
         try:
-            got = do_call(shared, op, teams, kw, lambda: "n%d" % next(ctr))
+            got = do_call(shared, op, teams, kw, lambda: "n%d" % next(ctr), share_ids=(k % 3 == 1))
         except Exception as e:  # noqa: BLE001
             res.fail("property", "C14: valid call raised %s" % type(e).__name__, inp); return
         res.count("calls_" + op)
@@ -502,6 +507,12 @@ def c14(res):
     # the numbers of rate calls with per-call options also against the Lean model (pure function of values)
     games = [gen_game(rng, options=True) for _ in range(size(res, 300, 1500))]
     corr_games(res, games, "correspondence", "C14 rate as a pure function of (params, values, arguments)")
+    # predictions of many differently configured models in ONE process (a module- or class-level cache keyed by too
+    # little would make a result depend on an earlier call of ANOTHER model): each must be the model's pure function
+    pg = [p_pred.pred_game(rng, n=rng.choice([2, 3, 3]), maxsize=2) for _ in range(size(res, 250, 1200))]
+    p_pred.corr_pred(res, pg, "property", "C14 predictions depend only on the model's parameters and the values (many models in one process)")
+    for g in pg[:: max(1, len(pg) // 60)]:
+        p_pred.reconfigure_sequence(res, g, rng, "C14")
     res.rule = ("(i) every attribute write on a traced subclass of the model during random rate/predict calls with per-call tau/limit_sigma, and "
                 "model.__dict__ before/after; (ii) each call on the shared model vs the same call on a fresh model with fresh rating objects "
                 "(other ids, no names): bit-identical; (iii) 4 real threads on disjoint ratings through one shared model, switch interval 1e-6, "
@@ -602,7 +613,19 @@ def c18(res):
             for z in (3.0, 0.0, 1.0, -2.0, 2.5):
                 if R(m, s).ordinal(z) != m - z * s or R(m, s).ordinal() != m - 3.0 * s:
                     res.fail("property", "C18: %s ordinal(%r) of (%r,%r) is not mu - z*sigma" % (kind, z, m, s), dict(type="c18ord", kind=kind)); break
+        # the same object queried repeatedly with different z, then compared and sorted
+        for (m, s) in pts[:20]:
+            r = R(m, s)
+            o = R(m + 1.0, s + 0.25)
+            seq = [r.ordinal(1.0), r.ordinal(), r.ordinal(0.0), r.ordinal(3.0), o.ordinal(2.0)]
+            want = [m - 1.0 * s, m - 3.0 * s, m - 0.0 * s, m - 3.0 * s, (m + 1.0) - 2.0 * (s + 0.25)]
+            res.count("ordinal_sequences")
+            if seq != want or (r < o) != (m - 3.0 * s < (m + 1.0) - 3.0 * (s + 0.25)) or (o <= r) != ((m + 1.0) - 3.0 * (s + 0.25) <= m - 3.0 * s):
+                res.fail("property", "C18: %s: repeated ordinal(z) calls / comparisons on the same object are inconsistent with mu - z*sigma: %r vs %r" % (kind, seq, want),
+                         dict(type="c18ord", kind=kind)); break
         rs = [R(m, s) for (m, s) in pts]
+        for r in rs[::2]:
+            r.ordinal(1.0)          # a display query with a non-default z before sorting
         rng.shuffle(rs)
         srt = sorted(rs)
         ords = [r.ordinal() for r in srt]
@@ -823,6 +846,27 @@ def c20_construct(res, kind, seen_ids):
                 c = copy.deepcopy(r)
                 if not (c is not r and same_value(c.mu, r.mu) and same_value(c.sigma, r.sigma) and c.name == r.name and c.id == r.id):
                     res.fail("property", "C20: deepcopy of a rating does not preserve mu/sigma/name/id in a distinct object", inp); return
+    # ids stay fresh when the program re-seeds the global random generator (reproducible simulations)
+    st = random.getstate()
+    try:
+        for rep in range(3):
+            random.seed(1234)
+            for _ in range(3):
+                for x in (m.rating(1.0, 2.0), M.create_rating([1.0, 2.0])):
+                    if x.id in seen_ids:
+                        res.fail("property", "C20: rating id %r repeats after random.seed()" % x.id, inp); return
+                    seen_ids.add(x.id)
+    finally:
+        random.setstate(st)
+    # a snapshot (deepcopy keeps the id) next to the live player whose values have moved on
+    live = m.rating(5.0, 6.5, "p")
+    snap = copy.deepcopy(live)
+    live.mu, live.sigma = -3.5, 7.25
+    cp = copy.deepcopy([[snap], [live], [snap, live]])
+    vals = [[(p.mu, p.sigma, p.id) for p in t] for t in cp]
+    want = [[(5.0, 6.5, live.id)], [(-3.5, 7.25, live.id)], [(5.0, 6.5, live.id), (-3.5, 7.25, live.id)]]
+    if vals != want:
+        res.fail("property", "C20: deepcopy of a nested list holding a snapshot and the live rating of one player gives %r, expected %r" % (vals, want), inp); return
     d = m.rating()
     if not (d.mu == 31.0 and d.sigma == 7.0 and d.name is None):
         res.fail("property", "C20: rating() without arguments does not use the model defaults", inp)
